@@ -136,8 +136,9 @@ def maybe_replace_doc_str_in_function_or_class(node, cst_idx, cst_list):
         return TripleQuoted(
             is_double_q=is_double_q,
             is_docstr=True,
-            value='\n{space}"""{replacement_doc_str}\n{space}"""'.format(
+            value="\n{space}{quote}{replacement_doc_str}\n{space}{quote}".format(
                 space=space,
+                quote='"""' if is_double_q else "'''",
                 replacement_doc_str="\n".join(
                     map(
                         lambda line: "{space}{line}".format(
